@@ -1,6 +1,11 @@
 import CGV.Props.C13
+import CGV.Props.C13Chain
 #print axioms CGV.C13.C13_descriptors_after_atom
 #print axioms CGV.C13.C13_descriptors_at_end
 #print axioms CGV.stripAux_descs
 #print axioms CGV.stripAux_desc
 #print axioms CGV.formatBonding_wf
+#print axioms CGV.C13.C13_chain
+#print axioms CGV.C13.stripAux_chain
+#print axioms CGV.C13.stripAux_descs_exact
+#print axioms CGV.C13.foldl_afterItem_fields
